@@ -84,6 +84,12 @@ func expandC12(_ *testing.T, seed uint64, tier string) []*core.Plan {
 	if r.Chance(1, 5) {
 		p.SetKnob("pred", 1) // the subject itself displaces an earlier connection with its client id
 	}
+	if p.Knob("fullq", 0) == 1 && core.NewRand(core.Derive(seed, "o1p")).Chance(1, 2) {
+		// the online observer with the full queue has a persistent session (the
+		// backend keeps stored sessions apart from temporary ones); drawn from a
+		// stream of its own, the other plans stay as they were
+		p.SetKnob("o1p", 1)
+	}
 	p.Yield = r.Pick(0, 0, 0, 8)
 	p.Items = []core.Item{{K: "scenario", S: causeNames[cause], T: stateNames[state]}}
 	return []*core.Plan{p}
@@ -131,7 +137,7 @@ func runC12(t *testing.T, p *core.Plan) *core.Result {
 			pr.Send(s)
 		}
 		// observers
-		o1 := connect("o1", true)
+		o1 := connect("o1", p.Knob("o1p", 0) == 0)
 		subscribe(o1, "w/#", 2)
 		o2 := connect("o2", false)
 		subscribe(o2, "w/t", 1)
